@@ -373,6 +373,9 @@ func (tm *TModel) HasStd() bool {
 type TypeOracle struct {
 	M *sx.Machine
 	C *smt.Ctx
+	// Float32AsFloat64 relaxes O-dec so that float32 range overflow is not counted
+	// (used to separate the known finding "float32-overflow" from any other violation).
+	Float32AsFloat64 bool
 }
 
 func isEmptyJSON(c *smt.Ctx, inst Inst) *smt.Term {
@@ -483,6 +486,9 @@ func (o *TypeOracle) Dec(tm *TModel, inst Inst) *smt.Term {
 		return c.Or(null, c.And(inst.TagIs(sx.TagNumber), inst.NumIsInt(),
 			c.Le(c.Rat(new(big.Rat).SetInt(tm.Lo)), inst.NumReal()), c.Le(inst.NumReal(), c.Rat(new(big.Rat).SetInt(tm.Hi)))))
 	case TKFloat32:
+		if o.Float32AsFloat64 {
+			return c.Or(null, inst.TagIs(sx.TagNumber))
+		}
 		lim := c.Rat(new(big.Rat).SetFloat64(math.MaxFloat32))
 		return c.Or(null, c.And(inst.TagIs(sx.TagNumber), c.Le(c.Neg(lim), inst.NumReal()), c.Le(inst.NumReal(), lim)))
 	case TKFloat64:
